@@ -3,6 +3,7 @@ package circl
 
 import (
 	"crypto/cipher"
+	"errors"
 	"io"
 
 	bls12381 "github.com/cloudflare/circl/ecc/bls12381"
@@ -18,7 +19,15 @@ type G2Elt struct{ inner bls12381.G2 }
 func (p *G2Elt) MarshalBinary() (data []byte, err error) { return p.inner.BytesCompressed(), nil }
 
 // UnmarshalBinary populates the point from a compressed point representation.
-func (p *G2Elt) UnmarshalBinary(data []byte) error { return p.inner.SetBytes(data) }
+func (p *G2Elt) UnmarshalBinary(data []byte) error {
+	// Only the compressed form is accepted. Without this check the backend
+	// takes a cleared compression bit as a request to read twice as many
+	// bytes and slices past the end of the buffer.
+	if len(data) != bls12381.G2SizeCompressed || data[0]&0x80 == 0 {
+		return errors.New("bls12381: not a compressed G2 point")
+	}
+	return p.inner.SetBytes(data)
+}
 
 func (p *G2Elt) String() string { return p.inner.String() }
 
